@@ -2,7 +2,11 @@ module verif/harness
 
 go 1.26.0
 
-require mvdan.cc/sh/v3 v3.0.0
+require (
+	github.com/rogpeppe/go-internal v1.15.0
+	mvdan.cc/editorconfig v0.3.0
+	mvdan.cc/sh/v3 v3.0.0
+)
 
 require (
 	golang.org/x/sys v0.47.0 // indirect
